@@ -120,7 +120,7 @@ impl QuakeState {
 
     /// Also send the alternate spelling of some of the variables that use the primary one.
     pub fn add_both_spellings(&mut self, t: &mut Tape) {
-        let mut add = |t: &mut Tape, uses_alt: bool, alt: &str, out: &mut Vec<(String, String)>| {
+        let add = |t: &mut Tape, uses_alt: bool, alt: &str, out: &mut Vec<(String, String)>| {
             if !uses_alt && t.draw(DATA, 2) == 1 {
                 out.push((alt.to_string(), q_str(t, 12, true)));
             }
